@@ -140,11 +140,12 @@ int main(void)
         size_t L = strlen(line);
         while (L && (line[L-1] == '\n' || line[L-1] == '\r')) line[--L] = 0;
         if (strncmp(line, "seq ", 4)) continue;
-        int prefill = 0xA5, has_rep = 0; char *its = NULL;
+        int prefill = 0xA5, has_rep = 0, entry_errno = 0; char *its = NULL;
         snprintf(cur_id, sizeof(cur_id), "?");
         for (char *sv = NULL, *tok = strtok_r(line + 4, " ", &sv); tok; tok = strtok_r(NULL, " ", &sv)) {
             if (!strncmp(tok, "id=", 3)) snprintf(cur_id, sizeof(cur_id), "%s", tok + 3);
             else if (!strncmp(tok, "prefill=", 8)) prefill = (int)strtol(tok + 8, NULL, 0);
+            else if (!strncmp(tok, "errno=", 6)) entry_errno = (int)strtol(tok + 6, NULL, 0);
             else if (!strncmp(tok, "items=", 6)) its = tok + 6;
             else if (!strncmp(tok, "rep=", 4)) { /* rep=N:ITEM expands to N copies (long transient runs) */
                 long n = atol(tok + 4); char *c = strchr(tok, ':');
@@ -159,6 +160,7 @@ int main(void)
         memset(buf, prefill, sizeof(buf));
         int before = count_fds();
         active = 1;
+        errno = entry_errno;         /* whatever an unrelated earlier call left behind */
         int res = tinyjambu_trng_generate(buf + 8);
         active = 0;
         int after = count_fds();
